@@ -904,3 +904,84 @@ pub proof fn lemma_filter_final(s: Seq<u8>, r: JF, out: Seq<u8>, len: int, wts: 
     assert(c.subrange(wts, wts + 2) =~= out.subrange(wts, wts + 2));
     assert(f_tags(c) =~= out.subrange(wts, len));
 }
+// ---- the values of a parsed filter can be rendered again (C03: Filter::as_json is total on parsed filters) ----
+pub open spec fn ftag_esc(out: Seq<u8>, base: int, j: int) -> bool {
+    let off = base + u16_at(out, base + 4 + 2 * j);
+    forall|k: int| 1 <= k < u16_at(out, off) ==> escapable(#[trigger] str_at(out, off + 2, k))
+}
+pub proof fn lemma_ftag_esc_frame(b: Seq<u8>, b2: Seq<u8>, base: int, j: int, n: int, limit: int)
+    requires ftag_done(b, base, j, n, limit), ftag_esc(b, base, j), limit <= b.len(), b2.len() == b.len(), 0 <= j < n, 0 <= base,
+        forall|i: int| ((base + 4 + 2 * j <= i < base + 4 + 2 * j + 2)
+            || (base + u16_at(b, base + 4 + 2 * j) <= i < so(b, base + u16_at(b, base + 4 + 2 * j) + 2, u16_at(b, base + u16_at(b, base + 4 + 2 * j))))) ==> #[trigger] b2[i] == b[i],
+    ensures ftag_esc(b2, base, j)
+{
+    lemma_ftag_done_frame(b, b2, base, j, n, limit);
+    let slot = base + 4 + 2 * j;
+    assert(b2.subrange(slot, slot + 2) =~= b.subrange(slot, slot + 2));
+    let off = base + u16_at(b, slot);
+    let ns = u16_at(b, off);
+    lemma_so_mono(b, off + 2, 0, ns);
+    assert(b2.subrange(off, off + 2) =~= b.subrange(off, off + 2));
+    lemma_str_at_frame(b, b2, off + 2, ns);
+    assert forall|k: int| 1 <= k < u16_at(b2, off) implies escapable(#[trigger] str_at(b2, off + 2, k)) by {
+        assert(escapable(str_at(b, off + 2, k)));
+    }
+}
+pub proof fn lemma_ftags_esc_below(b: Seq<u8>, b2: Seq<u8>, base: int, n: int, limit: int, a: int, e: int)
+    requires b2.len() == b.len(), limit <= b.len(), 0 <= base, 0 <= n, 0 <= a <= e <= base + 2, e <= b.len(),
+        forall|i: int| 0 <= i < b.len() && !(a <= i < e) ==> #[trigger] b2[i] == b[i],
+        forall|j: int| 0 <= j < n ==> #[trigger] ftag_done(b, base, j, n, limit),
+        forall|j: int| 0 <= j < n ==> #[trigger] ftag_esc(b, base, j),
+    ensures forall|j: int| 0 <= j < n ==> #[trigger] ftag_esc(b2, base, j),
+{
+    assert forall|j: int| 0 <= j < n implies #[trigger] ftag_esc(b2, base, j) by {
+        assert(ftag_done(b, base, j, n, limit) && ftag_esc(b, base, j));
+        let offj = base + u16_at(b, base + 4 + 2 * j);
+        lemma_so_mono(b, offj + 2, 0, u16_at(b, offj));
+        lemma_ftag_esc_frame(b, b2, base, j, n, limit);
+    }
+}
+pub proof fn lemma_filter_escapable(out: Seq<u8>, len: int, base: int, n: int)
+    requires 36 <= len <= out.len(), len <= u32::MAX, u32_at(out, 0) == len,
+        base == 32 + 32 * u16_at(out, 4) + 32 * u16_at(out, 6) + 2 * u16_at(out, 8),
+        base + 4 + 2 * n <= len, 0 <= n, len - base <= 65535,
+        u16_at(out, base) == len - base, u16_at(out, base + 2) == n,
+        forall|j: int| 0 <= j < n ==> #[trigger] ftag_done(out, base, j, n, len),
+        forall|j: int| 0 <= j < n ==> #[trigger] ftag_esc(out, base, j),
+    ensures filter_escapable(out.subrange(0, len))
+{
+    lemma_wf_filter_from_layout(out, len, base, n);
+    let c = out.subrange(0, len);
+    let tl = len - base;
+    let sfx = out.subrange(base, out.len() as int);
+    assert forall|i: int| 0 <= i && i + 2 <= len implies #[trigger] u16_at(c, i) == u16_at(out, i) by {
+        assert(c.subrange(i, i + 2) =~= out.subrange(i, i + 2));
+    }
+    assert(f_tags_start(c) == base);
+    let ft = f_tags(c);
+    assert(ft =~= sfx.subrange(0, tl));
+    assert forall|i: int| 0 <= i && i + 2 <= out.len() - base implies #[trigger] u16_at(sfx, i) == u16_at(out, base + i) by {
+        assert(sfx.subrange(i, i + 2) =~= out.subrange(base + i, base + i + 2));
+    }
+    assert forall|i: int| 0 <= i && i + 2 <= tl implies #[trigger] u16_at(ft, i) == u16_at(sfx, i) by {
+        assert(ft.subrange(i, i + 2) =~= sfx.subrange(i, i + 2));
+    }
+    assert(t_count(ft) == n);
+    assert forall|t: int, s: int| 0 <= t < t_count(ft) && 1 <= s < t_nstr(ft, t) implies escapable(#[trigger] s_bytes(ft, t, s)) by {
+        assert(ftag_done(out, base, t, n, len) && ftag_esc(out, base, t));
+        let off = base + u16_at(out, base + 4 + 2 * t);
+        let ns = u16_at(out, off);
+        lemma_so_mono(out, off + 2, 0, ns);
+        lemma_so_shift(out, base, off - base + 2, ns);
+        lemma_str_at_shift(out, base, off - base + 2, ns);
+        assert(t_off(ft, t) == off - base);
+        assert(u16_at(ft, off - base) == ns);
+        // ft and sfx agree on the whole tag
+        assert forall|i: int| off - base + 2 <= i < so(sfx, off - base + 2, ns) implies #[trigger] ft[i] == sfx[i] by { }
+        lemma_str_at_frame(sfx, ft, off - base + 2, ns);
+        lemma_so_is_s_off(ft, t, s);
+        assert(s_bytes(ft, t, s) == str_at(ft, off - base + 2, s));
+        assert(str_at(sfx, off - base + 2, s) == str_at(out, off + 2, s));
+        assert(escapable(str_at(out, off + 2, s)));
+    }
+}
